@@ -25,10 +25,11 @@ def main():
     demo_name = os.path.splitext(os.path.basename(demo))[0]
     bmi = 'bmi2' in open(md).read().lower() and 'RUSTFLAGS' in open(md).read()
     envx = {'RUSTFLAGS': '-C target-feature=+bmi2'} if bmi else None
+    rel = ' --release' if '--release' in open(md).read() else ''
     log = {}
     # pristine?
     rc, out = sh('git diff --quiet -- src', cwd=wt); assert rc == 0, 'worktree src not pristine'
-    rc, out = sh(f'cargo test --offline --test {demo_name}', cwd=wt, env=envx)
+    rc, out = sh(f'cargo test --offline{rel} --test {demo_name}', cwd=wt, env=envx)
     log['demo_without'] = 'pass' if rc == 0 else 'FAIL'
     rc, out = sh(f'git apply {diff}', cwd=wt); assert rc == 0, out
     try:
@@ -37,7 +38,7 @@ def main():
         rc, out = sh('cargo test --workspace --no-fail-fast --offline --doc', cwd=wt)
         res += re.findall(r'test result: (\w+)\. (\d+) passed; (\d+) failed', out)
         log['suite_with'] = res
-        rc2, out2 = sh(f'cargo test --offline --test {demo_name}', cwd=wt, env=envx)
+        rc2, out2 = sh(f'cargo test --offline{rel} --test {demo_name}', cwd=wt, env=envx)
         log['demo_with'] = 'pass' if rc2 == 0 else 'FAIL'
     finally:
         sh(f'git apply -R {diff}', cwd=wt)
@@ -66,12 +67,13 @@ def main():
     for p in [prop] + extra:
         sh(f'./check {p} quick', cwd='/verif', timeout=7200)
     # store
-    d = f'/verif/seeded/{prop}-{letter}'
+    tag = os.path.basename(wt.rstrip('/')).replace('mut_', '')
+    d = f'/verif/seeded/{prop}-{letter}' if tag == prop else f'/verif/seeded/{tag}-{letter}'
     os.makedirs(d, exist_ok=True)
     shutil.copy(diff, os.path.join(d, 'patch.diff'))
     shutil.copy(demo, os.path.join(d, os.path.basename(demo)))
     if os.path.exists(md): shutil.copy(md, os.path.join(d, 'description.md'))
-    meta = {'id': f'{prop}-{letter}', 'breaks': prop, 'origin': 'independent sub-agent given only the property text and a scratch worktree',
+    meta = {'id': os.path.basename(d), 'breaks': prop, 'origin': 'independent sub-agent given only the property text and a scratch worktree',
             'what_it_needs': open(md).read()[:1500] if os.path.exists(md) else '',
             'confirmed': confirmed, 'confirmation': log,
             'what_i_ran': f'worktree: existing suite with the patch, demo with/without the patch ({"+bmi2 build" if bmi else "default build"}); then git -C /repo apply patch.diff; ./check <prop> quick; git -C /repo checkout -- .',
